@@ -1328,10 +1328,14 @@ def _decorate_with_invariants(
                         ).format(func, param_names, args, kwargs)
                     ) from err
 
-                invariants = (
-                    instance.__class__.__invariants_on_setattr__
+                # (A method might be re-used as-is in an unrelated class, ``some_func = Contracted.some_func``. If that class
+                # has no invariants, there is nothing to be checked on its instances.)
+                invariants = getattr(
+                    instance.__class__,
+                    "__invariants_on_setattr__"
                     if is_setattr
-                    else instance.__class__.__invariants_on_call__
+                    else "__invariants_on_call__",
+                    (),
                 )
 
                 # The in-progress set is immutable: it is never changed in place, but replaced in the context variable
@@ -1384,10 +1388,14 @@ def _decorate_with_invariants(
                         ).format(func, param_names, args, kwargs)
                     ) from err
 
-                invariants = (
-                    instance.__class__.__invariants_on_setattr__
+                # (A method might be re-used as-is in an unrelated class, ``some_func = Contracted.some_func``. If that class
+                # has no invariants, there is nothing to be checked on its instances.)
+                invariants = getattr(
+                    instance.__class__,
+                    "__invariants_on_setattr__"
                     if is_setattr
-                    else instance.__class__.__invariants_on_call__
+                    else "__invariants_on_call__",
+                    (),
                 )
 
                 # The following dunder indicates whether another invariant is currently being checked. If so,
